@@ -10,6 +10,7 @@ mod c01;
 mod c15;
 mod common;
 mod layouts;
+mod strategies;
 
 fn main() {
     run_main(real_main)
@@ -22,6 +23,12 @@ fn real_main() {
         "c01" => c01::run(&args),
         "c14" => layouts::run_c14(&args),
         "c13" => layouts::run_c13(&args),
+        "c12" => layouts::run_c12(&args),
+        "c02" => strategies::run_c02(&args),
+        "c04" => strategies::run_c04(&args),
+        "c25" => strategies::run_c25(&args),
+        "c26" => strategies::run_c26(&args),
+        "c24" => strategies::run_c24(&args),
         "noop" => {}
         other => {
             eprintln!("unknown sub-command {:?}", other);
